@@ -226,10 +226,16 @@ def float_cases(tier):
     # integer -> float
     for t, nd in (('int32', 'Int32'), ('uint32', 'Uint32'), ('int16', 'Int16'), ('uint8', 'Uint8'), ('int', 'Int')):
         C.append(T('conv_%s_to_float' % t, '//go:noinline\nfunc toF_%s(x %s) (float64, float32) { return float64(x), float32(x) }\n' % (t, t), 'a, b := toF_%s(Nondet%s(0))\nVerifOutF64("a", a)\nVerifOutF64("b", float64(b))' % (t, nd),
-                   lambda inp: [('true', [('a', [F64('((_ to_fp 11 53) RNE (to_real in_0))')]), ('b', [F64('((_ to_fp 11 53) RNE ((_ to_fp 8 24) RNE (to_real in_0)))')])], 'normal')]))
+                   lambda inp: [('true', [('a', [F64('((_ to_fp 11 53) RNE ((_ int2bv 66) in_0))')]), ('b', [F64('((_ to_fp 11 53) RNE ((_ to_fp 8 24) RNE ((_ int2bv 66) in_0)))')])], 'normal')]))
+    for c in C:
+        if c.tag.startswith('conv_') and c.tag.endswith('_to_float'):
+            c.z3_timeout_ms = 90000          # int2bv under two roundings: 10-20 s alone
     for t, nd in (('int64', 'Int64'), ('uint64', 'Uint64')):
         C.append(T('conv_%s_to_float64' % t, '//go:noinline\nfunc toF_%s(x %s) float64 { return float64(x) }\n' % (t, t), 'VerifOutF64("a", toF_%s(Nondet%s(0)))' % (t, nd),
-                   lambda inp: [('true', [('a', [F64('((_ to_fp 11 53) RNE (to_real in_0))')])], 'normal')]))
+                   lambda inp: [('true', [('a', [F64('((_ to_fp 11 53) RNE ((_ int2bv 66) in_0))')])], 'normal')]))
+    for t, nd in (('int64', 'Int64'), ('uint64', 'Uint64')):
+        C.append(T('conv_%s_to_float32' % t, '//go:noinline\nfunc toF32_%s(x %s) float32 { return float32(x) }\n' % (t, t), 'VerifOutF64("a", float64(toF32_%s(Nondet%s(0))))' % (t, nd),
+                   lambda inp: [('true', [('a', [F64('((_ to_fp 11 53) RNE ((_ to_fp 8 24) RNE ((_ int2bv 66) in_0)))')])], 'normal')]))
     # float -> integer, for values the target type can hold (anything else is implementation-defined)
     def toint(t, lo, hi):
         s_, w = INT_TYPES[t]
@@ -245,7 +251,10 @@ def float_cases(tier):
             conv = ('bv', s64 if w == 64 else '((_ extract %d 0) %s)' % (w - 1, s64), w, s_ == 'i')
         else:
             conv = '(let ((u (bv2int %s))) (ite (>= u 9223372036854775808) (- u 18446744073709551616) u))' % s64
-        return T('conv_float64_to_%s' % t, '//go:noinline\nfunc to_%s(x float64) %s { return %s(x) }\n' % (t, t, t), body + out, lambda inp: [('true', [('r', [conv])], 'normal')])
+        c = T('conv_float64_to_%s' % t, '//go:noinline\nfunc to_%s(x float64) %s { return %s(x) }\n' % (t, t, t), body + out, lambda inp: [('true', [('r', [conv])], 'normal')])
+        if w == 64:
+            c.z3_timeout_ms = 120000        # one FP division by 2^32 bit-blasted: ~25 s alone, more next to 15 other solver processes
+        return c
     C.append(toint('int8', '-129', '128'))
     C.append(toint('uint8', '-1', '256'))
     C.append(toint('int16', '-32769', '32768'))
@@ -264,7 +273,8 @@ def main():
     fl = float_cases(tier)
     if tier == 'quick':
         # conversions between integers and floats need fp.to_sbv / to_real queries that z3 does not close within the quick budget: thorough tier only
-        fl = [c for c in fl if c.tag.startswith(('f64_', 'f32_')) or c.tag in ('conv_float32_float64', 'conv_float64_to_int64', 'conv_float64_to_uint64', 'conv_float64_to_int32', 'conv_float64_to_uint32')]
+        fl = [c for c in fl if c.tag.startswith(('f64_', 'f32_')) or c.tag in ('conv_float32_float64', 'conv_float64_to_int64', 'conv_float64_to_uint64', 'conv_float64_to_int32', 'conv_float64_to_uint32',
+                                                                               'conv_int32_to_float', 'conv_uint32_to_float')]
     cases = build_cases(tier, rnd) + fl
     only = os.environ.get('VERIF_ONLY')
     if only:
@@ -277,13 +287,30 @@ def main():
         skip = re.compile(r'^(shl_int64_by_|assign_sh[lr]_u?int64$|quo_int64_vv_bounded|rem_uint64_vv_bounded)')
         cases = [c for c in cases if not skip.match(c.tag)]
     heavy = re.compile(r'^(sh[lr]_u?int64_by_|assign_sh[lr]_u?int64$|(quo|rem)_u?int64_vv_bounded|mul_u?int64_vv|conv_float64_to_|conv_u?int64_to_float|f32_|f64_)')
-    return runner.run_property('C06', cases, tier=tier, chunk=int(os.environ.get('VERIF_CHUNK', '24')), heavy=lambda c: bool(heavy.match(c.tag)),
+    # the int64 -> float32 helper of the prelude, for all 2^64 arguments (bit-vector kernel translated from the current source)
+    kviol, kev = [], None
+    if not only or re.search(only, 'prelude_flatten64ToFloat32'):
+        sys.path.insert(0, os.path.dirname(os.path.abspath(__file__)))
+        import prelude_kernel
+        kviol, kev = prelude_kernel.run(tier)
+        print('C06 %s (prelude kernel): %s' % (tier, '; '.join('%s: %s in %.1fs' % ('int64' if q.get('signed') else 'uint64', q.get('result'), q.get('solver_s', 0)) for q in kev['queries'])))
+
+    def post(ev, rep):
+        if kev:
+            ev['coverage']['prelude_kernel'] = kev
+            ev['violations'] += len(kviol)
+    rc = runner.run_property('C06', cases, tier=tier, chunk=int(os.environ.get('VERIF_CHUNK', '24')), heavy=lambda c: bool(heavy.match(c.tag)), post=post,
                                title='operator table of the Go specification vs symbolic execution of the emitted JavaScript',
                                bounds={'integers': 'all operand values, full width (no bound)',
                                        'shift counts': 'all values; counts < 32 are case-split by the engine (one path per count), larger ones stay symbolic',
                                        'float/complex': 'see the float section of the evidence'},
                                cfg={'maxDepth': 600, 'maxPaths': 6000, 'timeoutMs': 10000, 'maxWallMs': 240000 if tier == 'quick' else 1500000},
                                z3_timeout_ms=10000 if tier == 'quick' else 60000)
+    for v in kviol:
+        print('VIOLATION property=C06 replay=%s' % v['where'])
+        print('  float32(%s(%d)): go prints bits %s, gopherjs+node %s (model of the bit-vector kernel of $flatten64ToFloat32)' % ('int64' if v['signed'] else 'uint64', v['x'], v['go'], v['js']))
+        rc = 1
+    return rc
 
 
 if __name__ == '__main__':
